@@ -409,6 +409,57 @@ def graceful_stop_at_the_wrong_moment(ctx: Ctx) -> None:
                        f"ends {d.get('final_status')}: stranded", {"role": "graceful-stop", "mode": d["mode"], "result": d})
 
 
+def lazy_poll_meets_its_own_requeue(ctx: Ctx) -> None:
+    """fault-free: a runner consumes `get_invocations_to_run` the way the thread runner does - one invocation at a time, each started
+    before the next message is popped.  The first invocation ends its first attempt with a retry (or is handed back by a reroute)
+    while the SAME poll is still going on: its new message is one of those the poll pops later.  Every accepted invocation must end
+    final (or be queued in an available status, or be held) - nothing may be dropped by the poll that handed it out."""
+    from pynenc.invocation.status import InvocationStatus as S
+
+    cA = rctx("rA")
+    for kind in ("mem", "sqlite"):
+        for variant in ("retry", "reroute"):
+            app = make_app(kind, ctx.tmp, app_id=f"c03lazy{kind}{variant}")
+            t = app.task(T.c03_body, max_retries=3)
+            plain = app.task(T.add)
+            x = t("retry" if variant == "retry" else "ok")
+            y = plain(1)
+            app.orchestrator.register_runner_heartbeats(["rA"])
+            handed: list[str] = []
+            gen = app.orchestrator.get_invocations_to_run(4, cA)
+            for inv in gen:
+                handed.append(inv.invocation_id)
+                if variant == "reroute" and inv.invocation_id == x.invocation_id and handed.count(x.invocation_id) == 1:
+                    # the runner gives it back at once (no slot after all / a stop request that is then withdrawn)
+                    app.orchestrator.reroute_invocations({inv.invocation_id}, cA)
+                    continue
+                try:
+                    inv.run(cA)
+                except BaseException:  # noqa: BLE001
+                    pass
+            # a few more rounds of the same runner: whatever is still queued gets its turn
+            for _ in range(4):
+                for inv in app.orchestrator.get_invocations_to_run(4, cA):
+                    handed.append(inv.invocation_id)
+                    try:
+                        inv.run(cA)
+                    except BaseException:  # noqa: BLE001
+                        pass
+            flush(app)
+            ctx.count()
+            st = app.orchestrator.get_invocation_status(x.invocation_id)
+            ctx.distinct((kind, "lazy-poll", variant, st.value))
+            if not st.is_final():
+                rec = app.orchestrator.get_invocation_status_record(x.invocation_id)
+                ctx.report(f"no-crash:poll-drops-the-requeue-of-what-it-handed-out[{kind}]:{variant}",
+                           f"[{kind}] fault-free: a runner consumes one poll lazily (start each invocation before popping the next message); the first invocation "
+                           f"{'ends its first attempt with a retry' if variant == 'retry' else 'is handed back by reroute_invocations'} while the poll is still going on: "
+                           f"after four more polls of the same runner it is {rec.status.value} (owner {rec.runner_id}), queued copies {queued_copies(app, x.invocation_id)}, "
+                           f"executions {T.C03_DONE.get(x.invocation_id, 0)}; handed out: {[('X' if h == x.invocation_id else 'Y') for h in handed]}",
+                           {"backend": kind, "variant": variant})
+            _ = (S, y)
+
+
 def worker_loop_consumption(ctx: Ctx) -> None:
     """fault-free: the REAL worker loop of the persistent-process runner consumes a queue holding a concurrency-blocked invocation
     followed by a runnable one; once the blocking invocation finishes, the blocked one must still complete (nothing may be left
@@ -636,6 +687,7 @@ def run(ctx: Ctx) -> None:
         recovery_run_is_the_victim(ctx, clock)
         graceful_stop_at_the_wrong_moment(ctx)
         worker_loop_consumption(ctx)
+        lazy_poll_meets_its_own_requeue(ctx)
         ctx.obligation(f"crash-point table: Lean classification == outcome of the real crash replay on Mem and SQLite ({points} points)", nd == 0, f"{nd} disagreements")
     finally:
         hook.uninstall()
